@@ -128,7 +128,7 @@ def explore(ck: Check, n_tables: int, slow_formats: bool) -> None:
                     run("ebcdic-recfm-vb", lambda: observe_with_schema(COBOL_EBCDIC_File(p_vb, recfm_class=E.RECFM_VB, lrecl=1), cschema, t[0], strip=True))
                 # the copybook as a file with a further, unrelated 01 record after it, loaded the documented way (COBOLSchemaLoader.load:
                 # "the first 01 level record is returned")
-                p_c = tdp / f"t{i}.cpy"
+                p_c = tdp / "table.cpy"       # the SAME path for every table: each table's copybook replaces the previous one
                 p_c.write_text(copybook_for(t, widths) + "       01  TRAILER-REC.\n           05  TRAILER-COUNT PIC 9(7).\n           05  TRAILER-NOTE PIC X(3).\n")
                 try:
                     from stingray.workbook import COBOLSchemaLoader
